@@ -1564,13 +1564,18 @@ class FlowIR(object):
 
         # VV: The replacement happens at the string level which means that
         #     we have to split the `references` field again
-        new_references = []
-        references = component.get('references', [])
+        def split_references(references):
+            new_references = []
+            for ref in references:
+                new_references.extend(ref.split())
+            return new_references
 
-        for ref in references:
-            new_references.extend(ref.split())
+        component['references'] = split_references(component.get('references', []))
 
-        component['references'] = new_references
+        # VV: the platform overrides of the component may carry their own `references`, they were aggregated too
+        for platform_override in (component.get('override') or {}).values():
+            if isinstance(platform_override, dict) and isinstance(platform_override.get('references'), list):
+                platform_override['references'] = split_references(platform_override['references'])
 
         return component
 
